@@ -62,14 +62,15 @@ Definition line_node (off len_ : N) (inl teol : tree) (total : N) : tree :=
 
 Theorem units_line us pre rest f :
   wf anyd us -> Forall okc (decode us) -> ulive us = false -> us <> [] -> not_dedent_start (encode us) = true ->
-  exists ns rest' off' teol,
+  let ns := seg_nodes (len_N pre) (group us) in
+  exists rest' off' teol,
     run akn_peg (20 + f) (Ref (of_string "line")) (encode us ++ NL :: rest) (len_N pre)
     = Ok rest' off' (line_node (len_N pre) 0 (Node (len_N pre) (len_N (encode us)) [] [] ns) teol (off' - len_N pre))
     /\ forall f', exists ds,
          inline_many (pre ++ encode us ++ NL :: rest) (to_dict (pre ++ encode us ++ NL :: rest) (S f')) ns = OkR ds
          /\ Forall is_dtext ds /\ concat (map dval ds) = decode us.
 Proof.
-  intros W Ho Hl Hne Hd.
+  intros W Ho Hl Hne Hd ns. subst ns.
   assert (Hw : wf_segs (group us)) by (apply (wf_group _ us W Ho Hl)).
   assert (Hg : group us <> []).
   { intros E. pose proof (dec_group us) as Hdg. rewrite E in Hdg. cbn in Hdg. destruct us; [contradiction|discriminate]. }
@@ -83,7 +84,7 @@ Proof.
   rewrite (plain_inlines_parse (4 + f) (group us) rest (len_N pre) Hw Hg).
   change (13 + (4 + f))%nat with (6 + (11 + f))%nat.
   destruct (eol_ok (11 + f) rest (len_N pre + len_N (raw (group us)))) as (rest' & off' & teol & Ee). rewrite Ee.
-  exists (seg_nodes (len_N pre) (group us)), rest', off', teol. split.
+  exists rest', off', teol. split.
   - cbn [rev_append]. unfold line_node. reflexivity.
   - intros f'. destruct (plain_inlines_text f' (group us) pre (NL :: rest) Hw) as (ds & E & Hdt & Hc).
     exists ds. split; [exact E|]. split; [exact Hdt|]. rewrite Hc. apply dec_group.
@@ -126,9 +127,9 @@ Proof.
   rewrite He in *.
   assert (Hus : us <> []) by (intros ->; cbn in Hdec; destruct t; [contradiction|discriminate]).
   assert (Ho : Forall okc (decode us)) by (rewrite Hdec; apply nl_to_space_okc; exact Hs).
-  destruct (units_line us pre rest f Hw Ho Hl Hus Hd) as (ns & rest' & off' & teol & Hrun & Hdict).
+  destruct (units_line us pre rest f Hw Ho Hl Hus Hd) as (rest' & off' & teol & Hrun & Hdict).
   destruct (Hdict f') as (ds & Hi & Hdt & Hc).
-  exists rest', off', (line_node (len_N pre) 0 (Node (len_N pre) (len_N (encode us)) [] [] ns) teol (off' - len_N pre)), ds.
+  exists rest', off', (line_node (len_N pre) 0 (Node (len_N pre) (len_N (encode us)) [] [] (seg_nodes (len_N pre) (group us))) teol (off' - len_N pre)), ds.
   split; [exact Hrun|]. split.
   - change (2 + f')%nat with (S (S f')). rewrite td_line. cbn [t_kids]. rewrite Hi. reflexivity.
   - split; [exact Hdt|]. rewrite Hc. exact Hdec.
